@@ -66,7 +66,7 @@ def check(ck):
         ck.ob("execute_fields_serially: one plain `for` loop", len(loops) == 1 and isinstance(loops[0], ast.For), s, s.node, construct="serial:one-loop")
         lp = loops[0]
         ck.ob("execute_fields_serially: iterates the collected mapping in its own order", unparse(lp.iter) == f"{sp[4]}.items()", s, lp, construct="serial:order")
-        rc = [c for c in sv.calls("resolve_field") if contains(lp, c)]
+        rc = [c for c in sv.calls() if contains(lp, c) and (callee_last(c) in ("resolve_field", "resolver"))]
         ok = len(rc) == 1 and sv.is_awaited(rc[0]) and sv.in_comprehension(rc[0]) is None
         ck.ob("execute_fields_serially: the field is resolved by a call that is the direct operand of `await`, inside the loop body", ok, s, rc[0] if rc else lp,
               construct="serial:await-in-loop", detail="storing or gathering the coroutine would start the next root field before this one completed")
